@@ -71,6 +71,7 @@ type Frame struct {
 	boxes     map[string]Val
 	recvRef   string
 	reachCond string
+	savedDefers []deferRec // the caller's pending defers while this (inlined) frame runs
 }
 
 func (fr *Frame) top() *Frame {
@@ -1003,6 +1004,21 @@ func (fr *Frame) instr(st *State, ins ssa.Instruction) {
 		fr.curPanicking = true
 		fr.runDefers(ps)
 		fr.curPanicking = false
+		if !fr.recovered {
+			// the panic propagates: the pending defers of the enclosing (inlining) frames run too
+			for f := fr; f.parent != nil; f = f.parent {
+				ps.defers = append([]deferRec(nil), f.savedDefers...)
+				pc := f.parent.curCond
+				f.parent.curCond = cond
+				f.parent.curPanicking = true
+				f.parent.runDefers(ps)
+				f.parent.curPanicking = false
+				f.parent.curCond = pc
+				if f.parent.recovered {
+					break
+				}
+			}
+		}
 		if fr.recovered && fr.fn.Recover != nil {
 			// a deferred call recovered: control resumes at the recover block (returns the named results)
 			fr.recovered = false
